@@ -1852,11 +1852,17 @@ def rank_scopes(prog, f):
     holds derives from the rank index."""
     lp, rv, _ = rank_loop(f, [it.node for it in case_labels(prog, f)])
     top = {rv: ('INT', '<i>')}
-    out = [(f, lp, top)]
+    out = [(f, lp, top, frozenset())]
     seen = {f.where}
-    work = [(f, lp, top)]
+    work = [(f, lp, top, frozenset())]
     while work:
-        h, body, hidx = work.pop()
+        h, body, hidx, helems = work.pop()
+        # names of this scope which hold one element of an iteration: the
+        # targets of its inner loops, and the parameters which were handed one
+        hinner = set(helems)
+        for n in walk(body):
+            if isinstance(n, (ast.For, ast.comprehension)) and n is not body:
+                hinner |= set(stores_in_target(n.target))
         for c in calls_in(body):
             g = prog.resolve_call(h, c)
             if g is None or g.cls is None or g.where in seen:
@@ -1871,10 +1877,14 @@ def rank_scopes(prog, f):
                 if sh is not None and sh[1] != 'const':
                     idx[p] = sh
             if idx:
+                # (the helper may be handed the entry itself: the element of
+                # the caller's iteration over the entries arrives as parameter)
+                elems = frozenset(p for p, a in pairs if isinstance(a, ast.Name)
+                                  and a.id in hinner and p not in idx)
                 seen.add(g.where)
-                out.append((g, g.node, idx))
+                out.append((g, g.node, idx, elems))
                 if len(seen) < 6:
-                    work.append((g, g.node, idx))
+                    work.append((g, g.node, idx, elems))
     return out
 
 
@@ -1882,8 +1892,8 @@ def rank_lookups(scope):
     """[(node, key expr, kind)] of the per-rank lookups / replications in one
     rank scope: .get(k) / [k] on an element of an iteration, and the dict
     which wraps a plain entry"""
-    g, body, idx = scope
-    inner = set()
+    g, body, idx, elems = scope
+    inner = set(elems)
     for n in walk(body):
         if isinstance(n, ast.For) and n is not body:
             inner |= set(stores_in_target(n.target))
@@ -1938,7 +1948,7 @@ def rank_case(prog, rep, rid):
     # lookups and replication are keyed by the rank id
     n_look = 0
     for scope in rank_scopes(prog, f):
-        g, body, idx = scope
+        g, body, idx = scope[:3]
         dg = d if g is f else Deps(g.node)
         for n, key, kind in rank_lookups(scope):
             if kind == 'lookup':
@@ -2156,7 +2166,7 @@ def consumer_keys(prog):
     f = prog.method(EXE[0], EXE[1], '_get_prep_exec')
     lookups, repl = [], []
     for scope in rank_scopes(prog, f):
-        g, body, idx = scope
+        g, body, idx = scope[:3]
         for n, key, kind in rank_lookups(scope):
             names = {x: ('INT', '<i>') for x in index_vars(g.node)}
             names.update(idx)
